@@ -11,9 +11,14 @@ import BufrModel.Drv.CoderOp
 import BufrModel.Drv.ScriptOp
 import BufrModel.Drv.SectionsOp
 import BufrModel.Drv.ViewOp
+import BufrModel.Drv.SubsetOp
+import BufrModel.Drv.TemplateOp
+import BufrModel.Drv.CacheOp
+import BufrModel.Drv.CompilerOp
+import BufrModel.Drv.TableDefOp
 open Lean Bufr.Drv
 
-/-- stateless operations: one line per op (keep sorted by property to ease merging) -/
+/-- stateless operations: one line per op -/
 def statelessOps : List (String × (Json → J Json)) :=
   ("bits", opBits) ::
   ("path", opPath) ::
@@ -25,8 +30,10 @@ def statelessOps : List (String × (Json → J Json)) :=
   ("msg-encode", opMsgEncode) ::
   ("msg-decode", opMsgDecode) ::
   ("mdquery", opMdQuery) ::
+  ("subset", opSubset) ::
+  ("normalize", opNormalize) ::
+  ("cache", opCache) ::
   []
-
 
 /-- operations that read or change the driver state -/
 def statefulOps : List (String × (DrvState → Json → J (DrvState × Json))) :=
@@ -38,6 +45,17 @@ def statefulOps : List (String × (DrvState → Json → J (DrvState × Json))) 
   ("nested-json", opNestedJson) ::
   ("to-flat", opToFlat) ::
   ("views", opViews) ::
+  ("build", opBuild) ::
+  ("expand-row", opExpandRow) ::
+  ("expand-all", opExpandAll) ::
+  ("tables-wf", opTablesWf) ::
+  ("compile", opCompile) ::
+  ("dec-data-compiled", opDecDataCompiled) ::
+  ("enc-data-compiled", opEncDataCompiled) ::
+  ("compiled-cache", opCompiledCache) ::
+  ("tabledef-extract", TD.opTableDefExtract) ::
+  ("fix-ncep", TD.opFixNcep) ::
+  ("build-src", TD.opBuildSrc) ::
   []
 
 def dispatch (st : DrvState) (j : Json) : J (DrvState × Json) := do
